@@ -4,7 +4,14 @@ import (
 	"bytes"
 	"errors"
 	"fmt"
+	"io"
 )
+
+// errHeaderBlockBareLF is returned for a header block whose terminating blank
+// line is a bare LF. Such a block used to be reported as incomplete until the
+// peer closed the connection, which surfaced as an error wrapping io.EOF;
+// the error still wraps io.EOF for callers matching on that.
+var errHeaderBlockBareLF = fmt.Errorf("invalid headers, the header block must be terminated by an empty CRLF line: %w", io.EOF)
 
 type headerScanner struct {
 	initialized bool
@@ -12,9 +19,9 @@ type headerScanner struct {
 	b []byte
 	r int
 
-	// blockEnd is the end of the header block in b when the caller has
-	// already found it (see readRawHeaders), 0 otherwise. next only trusts
-	// it if the block really ends in CRLFCRLF there.
+	// blockEnd is the end of the header block in b (the position right after
+	// the first blank line) when the caller has already found it (see
+	// readRawHeaders), 0 otherwise.
 	blockEnd int
 
 	key   []byte
@@ -34,19 +41,23 @@ func (s *headerScanner) next() bool {
 			return false
 		}
 
-		if s.blockEnd >= 4 && s.blockEnd <= len(s.b) &&
-			bytes.Equal(s.b[s.blockEnd-4:s.blockEnd], strCRLFCRLF) {
-			// The caller already found the end of the block, no need to
-			// search for it again. The first CRLFCRLF can only sit at
-			// blockEnd-4 since readRawHeaders stops at the first blank line.
-			s.b = s.b[:s.blockEnd]
-		} else {
-			i := bytes.Index(s.b, strCRLFCRLF)
-			if i < 0 {
+		// The header block ends at its first blank line. Whether the block
+		// is complete and whether it is acceptable is decided by the bytes
+		// of the block alone, never by the bytes following it.
+		end := s.blockEnd
+		if end <= 0 || end > len(s.b) {
+			end = headerBlockEnd(s.b)
+			if end < 0 {
 				s.err = ErrNeedMore
 				return false
 			}
-			s.b = s.b[:i+4]
+		}
+		s.b = s.b[:end]
+		if !bytes.HasSuffix(s.b, strCRLF) {
+			// Header lines may end in a bare LF, the blank line terminating
+			// the block may not.
+			s.err = errHeaderBlockBareLF
+			return false
 		}
 		if len(s.b) > 0 && (s.b[0] == ' ' || s.b[0] == '\t') {
 			s.err = errors.New("invalid headers, headers cannot start with space or tab")
@@ -86,6 +97,23 @@ func (s *headerScanner) next() bool {
 	}
 
 	return true
+}
+
+// headerBlockEnd returns the position right after the first blank line
+// ("\n" or "\r\n" following a line end or starting b) in b, -1 if b doesn't
+// contain a blank line yet. It uses the same line rules as readRawHeaders.
+func headerBlockEnd(b []byte) int {
+	n := 0
+	for {
+		m := bytes.IndexByte(b[n:], nChar)
+		if m < 0 {
+			return -1
+		}
+		if m == 0 || (m == 1 && b[n] == rChar) {
+			return n + m + 1
+		}
+		n += m + 1
+	}
 }
 
 // readLine reads a line from b, starting at s.r, and returns it with the
